@@ -80,6 +80,7 @@ func init() {
 		Run: func(c *eng.Ctx) {
 			ruleVisitedSet(c)
 			ruleTraversalComplete(c)
+			ruleProcessDrainsIterator(c)
 		},
 		Controls: []Control{
 			{Name: "insert-outside-critical-section", File: "internal/data/find.go",
